@@ -97,7 +97,13 @@ type mapping struct {
 	mixed bool
 	// declareEach: every polynomial additionally declares its own parity (IsEven=false resp. IsOdd=false)
 	declareEach bool
+	// perPolyIntervals (Chebyshev basis): every polynomial of the vector has its own interval; the change of basis
+	// comes from PolynomialVector.ChangeOfBasis(slots)
+	perPolyIntervals bool
 }
+
+// intervals of polynomials 1 and 2 of a perPolyIntervals vector (polynomial 0 keeps the scenario's interval)
+var extraIntervals = [][2]float64{{0, 4}, {-2, -0.5}}
 
 const oddBits, evenBits = 0xAAAAAAAAAAAAAAAA, 0x5555555555555555
 
@@ -132,7 +138,7 @@ func mappings() []mapping {
 				m[i%2] = append(m[i%2], i)
 			}
 			return m
-		}, false, false},
+		}, false, false, false},
 		// one polynomial on the first half only: the other slots must evaluate to 0
 		{"partial-one", 1, func(s int) map[int][]int {
 			m := map[int][]int{0: nil}
@@ -140,7 +146,7 @@ func mappings() []mapping {
 				m[0] = append(m[0], i)
 			}
 			return m
-		}, false, false},
+		}, false, false, false},
 		// two polynomials on a quarter each (not contiguous), half of the slots uncovered
 		{"partial-two", 2, func(s int) map[int][]int {
 			m := map[int][]int{0: nil, 1: nil}
@@ -153,12 +159,14 @@ func mappings() []mapping {
 				}
 			}
 			return m
-		}, false, false},
+		}, false, false, false},
 		// three polynomials on one slot each (first, a middle one, last)
 		{"singletons", 3, func(s int) map[int][]int {
 			return map[int][]int{0: {0}, 1: {s/2 + 1}, 2: {s - 1}}
-		}, false, false},
+		}, false, false, false},
 		// general / odd / even polynomials in one vector, parity not declared
-		{"mixed-parity", 3, thirds, true, false},
+		{"mixed-parity", 3, thirds, true, false, false},
+		// three polynomials on three different (also asymmetric) Chebyshev intervals
+		{"per-poly-intervals", 3, thirds, false, false, true},
 	}
 }
